@@ -270,6 +270,7 @@ class BMSMap(Map[BMSNoteList, BMSHitList, BMSHoldList, BMSBpmList], BMSMapMeta):
         ]
         hits = [[] for _ in range(MAX_KEYS)]
         holds = [[] for _ in range(MAX_KEYS)]
+        events = [[] for _ in range(MAX_KEYS)]
         time_sig = {}
 
         # The time_sig channel call does not sustain for more than 1 measure.
@@ -317,29 +318,35 @@ class BMSMap(Map[BMSNoteList, BMSHitList, BMSHoldList, BMSBpmList], BMSMapMeta):
                             )
                         )
                     elif channel in config.keys():
-                        column = int(config[channel])
+                        # Lines may come in any order, and several lines may share
+                        # a measure & channel: pair LN tails only once a lane is
+                        # known in full and sorted by time.
+                        events[int(config[channel])].append((measure, beat, pair))
 
-                        if pair == self.ln_end_channel:
-                            try:
-                                # Yield LN Head from Hits
-                                prev_hit = hits[column].pop(-1)
-                                holds[column].append(
-                                    Hold(
-                                        hit=prev_hit,
-                                        sample=prev_hit.sample,
-                                        snap=Snap(measure, beat, None),
-                                    )
-                                )
-                            except IndexError:
-                                raise Exception(
-                                    f"Failed to match LN Tail on " f"Column {column}."
-                                )
-                        else:
-                            # Else it's a note
-                            sample = self.samples.get(pair, b"")
-                            hits[column].append(
-                                Hit(sample=sample, snap=Snap(measure, beat, None))
+        for column, column_events in enumerate(events):
+            column_events.sort(key=lambda e: (e[0], e[1]))
+            for measure, beat, pair in column_events:
+                if pair == self.ln_end_channel:
+                    try:
+                        # Yield LN Head from Hits
+                        prev_hit = hits[column].pop(-1)
+                        holds[column].append(
+                            Hold(
+                                hit=prev_hit,
+                                sample=prev_hit.sample,
+                                snap=Snap(measure, beat, None),
                             )
+                        )
+                    except IndexError:
+                        raise Exception(
+                            f"Failed to match LN Tail on " f"Column {column}."
+                        )
+                else:
+                    # Else it's a note
+                    sample = self.samples.get(pair, b"")
+                    hits[column].append(
+                        Hit(sample=sample, snap=Snap(measure, beat, None))
+                    )
         #
         # measures = [*time_sig.keys(), -1]
         # for measure0, measure1 in zip(measures[:-1], measures[1:]):
